@@ -163,6 +163,9 @@ End(res, key, digest, cmp, readMsg, fEnd, recOk) ==   \* fEnd: whole frames acce
         \/ rHit \/ wHit \/ call.badAt > 0                             \* an error has a cause
         \/ (to = "toml" /\ docsSeen + call.ndocs > 1)
         \/ Dev_YamlSliceVoidDocument(call)
+        \* C12 speaks about inputs whose fault-free translation succeeds; an input class whose fault-free
+        \* translation fails by a recorded deviation (C02/C03's business) is not judged by C12 alone
+        \/ (~On("C03") /\ call.class # "")
   \* C12: the reader's text is preserved -- unless a document that is unclean anyway (call.alt)
   \* lies before the fault offset, in which case either cause may be the one reported first
   /\ (On("C12") /\ rHit /\ res = "err" /\ ~call.alt) => readMsg
